@@ -97,19 +97,25 @@ def parseFS : List String → Option FS
     some ((p, k) :: rest)
   | _ => none
 
-/-- `quote.init <wd> <dash|-1> <nargs> <arg>* (<path> f|d)*` → `written <path>` | `exists` | `error` -/
+/-- `quote.init <want> <wd> <dash|-1> <nargs> <arg>* (<path> f|d)*` → `written <path>` | `exists` | `error`.
+`<want>` (`w<hex>` | `x` | `e`) is where the RULE of the property says the file goes, computed by the
+generator from the tree it made (harness `initRule`); a model that disagrees with the rule answers
+`rule-says … model-says …`, which no implementation prints. -/
 def doInit : List String → Option String
-  | wd :: d :: n :: r => do
+  | want :: wd :: d :: n :: r => do
     let wd ← unhexBytes wd
     let d ← dashTok d
     let n ← n.toNat?
     if r.length < n then none else
     let args ← (r.take n).mapM unhexBytes
     let fs ← parseFS (r.drop n)
-    match initRun fs wd args d with
-    | .written p => some ("written " ++ hexBytes (clean p))
-    | .exists_ _ => some "exists"
-    | .error => some "error"
+    let res := match initRun fs wd args d with
+      | .written p => "written " ++ hexBytes (clean p)
+      | .exists_ _ => "exists"
+      | .error => "error"
+    let wantS := if want == "x" then "exists" else if want == "e" then "error"
+      else if want.startsWith "w" then "written " ++ (want.drop 1).toString else "bad-want"
+    if res == wantS then some res else some ("rule-says " ++ wantS ++ " model-says " ++ res)
   | _ => none
 
 /-- `quote.inert <s>` → `inert` | `special` -/
